@@ -88,6 +88,14 @@ def run_reconfigured(path, ev, should_only, base, decoy_path):
     return first, second, bogus
 
 
+def run_switched_to_qualified_names(fq_path, ev, should_only):
+    """One DiagramRule object first configured with a base module, then switched to 'names are fully qualified'."""
+    rule = DiagramRule(should_only_rule=should_only).from_file(Path(fq_path))
+    rule.with_base_module("zz_other_base")
+    rule = rule.base_module_included_in_module_names()
+    return outcome(lambda: rule.assert_applies(ev))
+
+
 def run_on_two_architectures(path, ev_first, ev, should_only, base):
     """One configured DiagramRule object applied to another architecture first, then (unchanged) to the one under test."""
     rule = DiagramRule(should_only_rule=should_only).from_file(Path(path)).with_base_module(base)
@@ -139,6 +147,12 @@ def judge(tree, imports, comps_short, arrows_short, should_only, ev, paths, base
             if (got[0], got[1] if got[0] != "error" else None) != (results["base"][0], results["base"][1] if results["base"][0] != "error" else None):
                 viols.append({"sig": f"C07/reconfigured-rule-object-differs/{name}", "key": {"mode": mode},
                               "detail": f"a re-targeted DiagramRule object gives {got}, a fresh one {results['base']}"})
+    if not viols:
+        got = run_switched_to_qualified_names(paths[True], ev, should_only)
+        if (got[0], got[1] if got[0] != "error" else None) != (results["fq"][0], results["fq"][1] if results["fq"][0] != "error" else None):
+            viols.append({"sig": "C07/reconfigured-rule-object-differs/base-module-then-qualified-names", "key": {"mode": mode},
+                          "detail": f"with_base_module(x) followed by base_module_included_in_module_names() gives {got}, a fresh rule with "
+                                    f"qualified names {results['fq']}"})
     if not viols and ev_alt is not None:
         got = run_on_two_architectures(paths[False], ev_alt, ev, should_only, base)
         if (got[0], got[1] if got[0] != "error" else None) != (results["base"][0], results["base"][1] if results["base"][0] != "error" else None):
